@@ -75,7 +75,8 @@ class MockInliner:
             # so we make a temporary parent to parse into
             container = nodes.Element()
             with self._renderer.current_node_context(container):
-                self._renderer.nested_render_text(text, lineno, inline=True)
+                # lineno is the (1-based) line of the text, so lineno - 1 lines precede it
+                self._renderer.nested_render_text(text, lineno - 1, inline=True)
 
         return container.children, []
 
@@ -250,7 +251,7 @@ class MockState:
         # parse attribution
         if attribution_lines:
             attribution_text = "\n".join(attribution_lines)
-            lineno = self._lineno + line_offset + (attribution_line_offset or 0)
+            lineno = self._lineno + line_offset + (attribution_line_offset or 0) + 1
             textnodes, messages = self.inline_text(attribution_text, lineno)
             attribution = nodes.attribution(attribution_text, "", *textnodes)
             (
